@@ -1,5 +1,7 @@
 import Ubx.Proofs.Codec
 import Ubx.Model.Walk
+import Ubx.Proofs.GenSpec
+import Ubx.Proofs.WalkSpec
 import Ubx.Generated.Tables
 /-!
 # C03 — messages built from keyword attributes encode exactly the values supplied
@@ -192,5 +194,42 @@ theorem C03_flags_roundtrip (fs : List (Nat × Nat)) (h : ∀ f ∈ fs, f.2 < 2 
         have eo : off + (w + ((rest.take k).map (·.1)).sum) = off + w + ((rest.take k).map (·.1)).sum := by omega
         rw [eo]
         exact this
+
+/-! ### the whole keyword walk -/
+
+/-- **layout**: building from keywords lays the payload out as the concatenation, in definition order, of each
+    attribute's / bitfield's own encoding (`gItems`: keyword value or nominal value through `val2bytes`, flags OR-ed at
+    their offsets; counted groups repeat as often as the count attribute says) — at whatever payload was there before.
+    No field's bytes depend on another field's value (each leaf is computed from its own keyword only). -/
+theorem C03_payload_is_layout (c : WCtx) (hp : c.hasPayload = false) (hcv : c.cfgval = false) (idx : List Nat)
+    (d : List Item) (hx : lenExactL d = true) (p : Bytes) (env : Env) (vts : List VT) (env' : Env)
+    (hs : gItems c idx d env = .ok (vts, env')) :
+    wItems c idx d ⟨p.length, p, env⟩ = .ok ⟨p.length + (encItems vts).length, p ++ encItems vts, env'⟩ :=
+  wItems_gen_spec c hp hcv idx d hx p env vts env' hs
+
+/-- at the level of the constructor -/
+theorem C03_constructed_payload (ctx : Ctx) (cls id : Bytes) (mode : Mode) (bf : Bool) (kw : List (AName × PyVal)) (d : Defn)
+    (hd : getDict ctx cls id mode (.attrs kw) = .ok d)
+    (hcv : (walkCtx ctx cls id mode bf (.attrs kw)).cfgval = false)
+    (hx : lenExactL d = true) (vts : List VT) (env' : Env)
+    (hs : gItems (walkCtx ctx cls id mode bf (.attrs kw)) [] d [] = .ok (vts, env')) :
+    walkFor ctx cls id mode bf (.attrs kw) = .ok (some (encItems vts), env') :=
+  walkFor_attrs ctx cls id mode bf kw d hd hcv hx vts env' hs
+
+/-- **generate then parse**: parsing the generated payload with the same definition computes the tree-directed
+    specification on the *generated* tree — so each attribute parses back as the decoding of the bytes its own keyword
+    produced (and by `C03_unsigned_attr`, `C03_signed_attr`, `C03_flags_roundtrip`, C18 that decoding is the keyword value) -/
+theorem C03_generate_then_parse (cg cp : WCtx) (hg : cg.hasPayload = false) (hpp : cp.hasPayload = true)
+    (hcvg : cg.cfgval = false) (hcvp : cp.cfgval = false)
+    (d : List Item) (hx : lenExactL d = true) (vts : List VT) (envG envP : Env)
+    (hgen : gItems cg [] d [] = .ok (vts, envG))
+    (hshape : shapeItems d vts [] = true) (hspec : specItems cp [] d vts [] = .ok envP) :
+    ∃ st, wItems cg [] d ⟨0, [], []⟩ = .ok st ∧ st.env = envG ∧
+      wItems cp [] d ⟨0, st.payload, []⟩ = .ok ⟨st.payload.length, st.payload, envP⟩ := by
+  have h1 := wItems_gen_spec cg hg hcvg [] d hx [] [] vts envG hgen
+  simp only [List.length_nil, Nat.zero_add, List.nil_append] at h1
+  refine ⟨_, h1, rfl, ?_⟩
+  have h2 := wItems_spec cp hpp hcvp [] d vts [] [] [] envP hshape hspec
+  simpa using h2
 
 end Ubx
